@@ -6,6 +6,7 @@ import (
 	"context"
 	"fmt"
 	"math/rand/v2"
+	"sort"
 	"strings"
 	"sync"
 	"sync/atomic"
@@ -40,6 +41,18 @@ func (c *c09Case) finish() {
 			c.MaxO = s
 		}
 	}
+}
+
+// eightLargest: the chunk size at its documented minimum (eight objects per message) still fits when
+// the eight largest objects fit one message together.
+func (c *c09Case) eightLargest() int {
+	all := append(append([]int(nil), c.Pods...), c.Ctrs...)
+	sort.Sort(sort.Reverse(sort.IntSlice(all)))
+	t := 0
+	for i := 0; i < len(all) && i < 8; i++ {
+		t += all[i] + 64
+	}
+	return t
 }
 
 func rep(n, size int) []int {
@@ -85,6 +98,17 @@ func c09Cases(g *rand.Rand, tier string) []*c09Case {
 	}
 	add("uniform-1k-64k", uni(120, 1<<10, 64<<10), uni(200, 1<<10, 64<<10))
 	add("nine-objects-480k", rep(4, 100), rep(5, 480<<10))
+	// few large objects, total a little above the limit: the chunk size is forced down to (nearly) its minimum
+	for _, pc := range [][2]int{{3, 6}, {4, 5}, {5, 4}, {5, 5}, {4, 6}, {6, 4}, {5, 6}, {6, 5}, {6, 6}, {6, 3}, {1, 10}, {10, 1}, {0, 10}, {10, 0}, {2, 9}, {7, 7}} {
+		fs := []float64{1.03, 1.08}
+		if tier == "thorough" {
+			fs = []float64{1.005, 1.03, 1.06, 1.08, 1.10, 1.2, 1.5}
+		}
+		for _, f := range fs {
+			per := int(f * float64(4<<20) / float64(pc[0]+pc[1]))
+			add(fmt.Sprintf("few-large-%d+%d-x%.3f", pc[0], pc[1], f), rep(pc[0], per), rep(pc[1], per))
+		}
+	}
 	// random shapes
 	n := tierN(tier, 14, 400)
 	for i := 0; i < n; i++ {
@@ -126,7 +150,7 @@ func c09State(cs *c09Case, tag string) ([]*api.PodSandbox, []*api.Container) {
 func runC09Case(dir string, cs *c09Case, tag string, res *ev.Result) {
 	what := cs
 	pods, ctrs := c09State(cs, tag)
-	small := cs.MaxO <= c09Small
+	small := cs.MaxO <= c09Small || cs.eightLargest() <= 4<<20-(64<<10)
 	rt, err := rig.NewRuntime(dir)
 	if err != nil {
 		res.Note("runtime: %v", err)
@@ -289,7 +313,7 @@ func runC09Case(dir string, cs *c09Case, tag string, res *ev.Result) {
 	}
 	// failure
 	if small {
-		res.Violate("C09/failed-small-state", fmt.Sprintf("every object is at most %d bytes, yet synchronization failed: %v (%s)", c09Small, sr.err, describe()), what)
+		res.Violate("C09/failed-small-state", fmt.Sprintf("every object is at most %d bytes or the eight largest objects fit one message together (%d bytes), yet synchronization failed: %v (%s)", c09Small, cs.eightLargest(), sr.err, describe()), what)
 		return
 	}
 	if cs.Peer == "stub" && handlerCalls.Load() != 0 && !exact {
